@@ -447,6 +447,18 @@ func (s *genState) expr(c ctx) ast.Expression {
 		e := ast.NewRecoveryExpr(ast.Pos{})
 		e.Expr = s.expr(sub)
 		e.RecoverExpr = s.expr(ctx{anc: anc, depth: c.depth - 1, head: true, consume: c.consume, noCalls: true})
+		if w[kAction] > 0 && w[kLabeled] > 0 && c.depth >= 2 && s.r.Intn(3) == 0 {
+			// the generator compiles the guarded and the recovery expression in ONE label list: a code block at the top
+			// of the recovery expression receives the labels at the top of the guarded one (round 18, C04)
+			l := ast.NewLabeledExpr(ast.Pos{})
+			l.Label = s.newLabel()
+			l.Expr = e.Expr
+			e.Expr = l
+			a := ast.NewActionExpr(ast.Pos{})
+			a.Expr = e.RecoverExpr
+			a.Code = ast.NewCodeBlock(ast.Pos{}, "{}")
+			e.RecoverExpr = a
+		}
 		n := 1 + s.r.Intn(2)
 		for i := 0; i < n; i++ {
 			e.Labels = append(e.Labels, ast.FailureLabel(s.flabel[s.r.Intn(len(s.flabel))]))
